@@ -1,7 +1,7 @@
 #!/usr/bin/env python3
 """maintenance helper (not used by checks): regenerate MANIFEST.json from the table below."""
 import json
-NOTE = ("Trusted base: rustc's MIR/name resolution (nightly, mir-opt-level=0) is faithful to what `cargo build` ships; "
+NOTE = ("Thorough tier = quick + T-regress (today's rules re-run on the pinned pre-repair commit must re-detect every finding recorded as fixed) + T-seeds (seeded changes recorded for this property in seeded/EXPECT.json must still raise a violation on a scratch copy of HEAD). Trusted base: rustc's MIR/name resolution (nightly, mir-opt-level=0) is faithful to what `cargo build` ships; "
         "`cargo check --workspace` covers the product crates with default features; third-party crates honour their "
         "documented contracts; frozen tables inside the rules (each row with its reason) and the invariants listed in "
         "rules/panic_triage.py are argued by reading. The check decides necessary structural conditions only; the "
@@ -11,25 +11,25 @@ CLAIMED = {
    text="Every numeric `as` cast on literal paths is classified by range propagation over the MIR expression (x / C, x % C, bounded fields): lossy ones are findings. Every FixedPoint a grammar action receives must have both parts read. The converter's accepted character set is cross-checked against the lexer regex alphabet. The lexer and DSL address regexes are parsed and compared (language, case, unbounded ASCII digit components, optional groups indexed). Fallible conversions must sit in `{? }` actions without unwrap/expect. Literal-path subset of the panic inventory. The mathematical value of accepted literals is not decided.",
    design="3 C09", technique="static analysis: MIR range propagation for casts, field-read completeness, regex AST comparison, sibling cross-check"),
  "C15": dict(
-   text="Legend constants vs *_INDEX constants by name and the advertised legend; the token-kind match is exhaustive without wildcard and each arm agrees with the class derived independently from the lexer's #[token]/#[regex] attributes; delta_line/delta_start of every SemanticToken must data-depend on a subtraction (relative encoding); Ok token list only when the tokenizer's diagnostics are empty and Err answered with null. Monotonicity/non-overlap of decoded ranges and UTF-16 lengths are not decided.",
+   text="Legend constants vs *_INDEX constants by name and the advertised legend; the token-kind match is exhaustive without wildcard and each arm agrees with the class derived independently from the lexer's #[token]/#[regex] attributes; delta_line/delta_start of every SemanticToken must data-depend on a subtraction (relative encoding); Ok token list only when the tokenizer's diagnostics are empty and Err answered with null. Monotonicity/non-overlap of decoded ranges and UTF-16 lengths are not decided. Also: tokens are computed from the current sources (cache coherence, stateless adapter) - the 'after arbitrary edit histories' clause.",
    design="3 C15", technique="static analysis: constant-table agreement, switch-arm extraction from MIR vs attribute-derived oracle, backward data-flow slice, CFG dominance"),
  "C11": dict(
-   text="Path-sensitive exploration of handle_notification's MIR: exactly one publishDiagnostics on the didOpen/didChange arms, after change_text_document then semantic, built from the same notification's uri and Some(version); none elsewhere. Data-flow slice of contentChanges (last change must win). Who-writes analysis for Source fields and FileBackedProject.sources (cache coherence by construction) and callee identity of the analysis entry shared with `check`. Decides these structural clauses for all histories; equality of published content with a fresh server is not decided.",
+   text="Path-sensitive exploration of handle_notification's MIR: exactly one publishDiagnostics on the didOpen/didChange arms, after change_text_document then semantic, built from the same notification's uri and Some(version); none elsewhere. Data-flow slice of contentChanges (last change must win). Who-writes analysis for Source fields and FileBackedProject.sources (cache coherence by construction) and callee identity of the analysis entry shared with `check`. Decides these structural clauses for all histories; equality of published content with a fresh server is not decided. Also: the LSP adapter and server hold no per-history state and LspProject::semantic always reaches Project::semantic.",
    design="3 C11", technique="static analysis: path-state exploration over MIR CFG, field who-writes, data-flow slicing"),
  "C12": dict(
-   text="Panic-site inventory (as C04) from the LSP message loop; per-path response counting in handle_request (exactly one send_response carrying req.id on every exit class; Shutdown exemption derived from run()'s MIR guard); dispatch completeness of run()'s match on Message; call-graph proof that no response is reachable from handle_notification; run() returns Ok only on shutdown. Decides the survive/answer-once clauses structurally for all message sequences; liveness/interleavings and lsp-server internals are not decided.",
+   text="Panic-site inventory (as C04) from the LSP message loop; per-path response counting in handle_request (exactly one send_response carrying req.id on every exit class; Shutdown exemption derived from run()'s MIR guard); dispatch completeness of run()'s match on Message; call-graph proof that no response is reachable from handle_notification; run() returns Ok only on shutdown. Decides the survive/answer-once clauses structurally for all message sequences; liveness/interleavings and lsp-server internals are not decided. Also re-verifies the cache-coherence invariant that the map_label slice justification relies on; thorough tier cross-references the inventory against clippy's restriction lints.",
    design="3 C12", technique="static analysis: MIR panic inventory over call graph, path-state counting lattice, call-graph reachability"),
  "C13": dict(
-   text="Path-sensitive exploration (with flag and pushed-vector pruning) of cli::check/echo/tokenize/create_project: Err returned iff a diagnostic was emitted / an Err arm taken / a non-empty diagnostic list seen; OK printed iff Ok returned; check's verdict is semantic()'s inspected Result; term::emit's Result must be inspected; main returns each command's Result unchanged. Directory/argument-order equivalence is not decided.",
+   text="Path-sensitive exploration (with flag and pushed-vector pruning) of cli::check/echo/tokenize/create_project: Err returned iff a diagnostic was emitted / an Err arm taken / a non-empty diagnostic list seen; OK printed iff Ok returned; check's verdict is semantic()'s inspected Result; term::emit's Result must be inspected; main returns each command's Result unchanged. Directory/argument-order equivalence is not decided. Also: directory expansion drops no readable entry and every enumerated file is pushed (R-C13-dir).",
    design="3 C13", technique="static analysis: path-state exploration over MIR CFG, result-use analysis"),
  "C01": dict(
-   text="Grammar-shape analysis of the PEG (reader cross-checked against rustc's rule set on every run) plus MIR: no labelled capture is unused (rustc's forced unused_variables lint mapped onto label positions), no value-returning nonterminal is used unlabelled in an action sequence, the precedence! block equals the Annex B.3.1 tiers/associativity/operator constants/operand order, keyword-token -> DSL-constant alternatives agree by name, list helpers do not demand a trailing separator, no placeholder Id/Type constants escape into the tree. Decides these necessary conditions of faithfulness for all inputs; tree equality with an independent reference is not decided.",
+   text="Grammar-shape analysis of the PEG (reader cross-checked against rustc's rule set on every run) plus MIR: no labelled capture is unused (rustc's forced unused_variables lint mapped onto label positions), no value-returning nonterminal is used unlabelled in an action sequence, the precedence! block equals the Annex B.3.1 tiers/associativity/operator constants/operand order, keyword-token -> DSL-constant alternatives agree by name, list helpers do not demand a trailing separator, no placeholder Id/Type constants escape into the tree. Decides these necessary conditions of faithfulness for all inputs; tree equality with an independent reference is not decided. Also: every match on VarDeclarations has one arm per variant; no keyword token collides with a textual keyword of the grammar; component-level use analysis of structured captures (R-C01-consume) and of VarDeclarations::drain_* remainders (R-C01-drain).",
    design="3 C01", technique="static analysis: grammar reader for the PEG macro input, forced rustc lint, MIR escape analysis, table comparison against Annex B"),
  "C02": dict(
-   text="Registry completeness of the rule and transform tables read from MIR function constants; analyze() applies semantic to resolve_types' result and returns it; each module constructs exactly its published Problem codes and every code is documented; traversal reachability over the Visitor/recurse_visit graph extracted from MIR (dead targets, cut-off overrides, blind containment edges above rule targets); per-scope visitor state is reset at scope boundaries (tables cleared, Option contexts reset on every path). The predicates of the rules themselves are not decided.",
+   text="Registry completeness of the rule and transform tables read from MIR function constants; analyze() applies semantic to resolve_types' result and returns it; each module constructs exactly its published Problem codes and every code is documented; traversal reachability over the Visitor/recurse_visit graph extracted from MIR (dead targets, cut-off overrides, blind containment edges above rule targets); per-scope visitor state is reset at scope boundaries (tables cleared, Option contexts reset on every path). The predicates of the rules themselves are not decided. ",
    design="3 C02", technique="static analysis: function-constant tables, call-graph over trait dispatch, type-containment vs traversal graph comparison, typestate on visitor fields"),
  "C03": dict(
-   text="Path-sensitive accumulator analysis over every product function that owns a Vec<Diagnostic> (local, visitor field or tuple part): diagnostics that may have been collected must be read or moved out before Ok is returned; every name-keyed HashMap insert of a declaration in the analyzer must inspect the returned Option or be guarded by a failed lookup; every declaration kind parked by name in the topological re-assembly must also be a graph node; the tokenizer's diagnostics gate the parse. Decides these masking mechanisms for all file sets; companion-independence of individual rule predicates is not decided.",
+   text="Path-sensitive accumulator analysis over every product function that owns a Vec<Diagnostic> (local, visitor field or tuple part): diagnostics that may have been collected must be read or moved out before Ok is returned; every name-keyed HashMap insert of a declaration in the analyzer must inspect the returned Option or be guarded by a failed lookup; every declaration kind parked by name in the topological re-assembly must also be a graph node; the tokenizer's diagnostics gate the parse. Decides these masking mechanisms for all file sets; companion-independence of individual rule predicates is not decided. Also: the file table's key identity (derived Eq/Hash/Ord on FileId) and the visitor scope-state rule shared with C02.",
    design="3 C03", technique="static analysis: typestate dataflow over MIR CFG (accumulator Clean/Dirty/Checked/Moved), result-use analysis, cross-check of match arms against visitor overrides"),
  "C05": dict(
    text="Provenance analysis of every SourceSpan field across parser and DSL constructors (token / default / copied-from, resolved through parameters, closures and Located impls to a fixed point) against every Label::span site of the analyzer: a label must not read a span that is only ever default(). join/join2 field pairing, the file-id fold (only fold_source_span overridden, start/end kept, reach of fold_id/fold_source_span, hidden containment edges, parse_program passes through the transform), token/identifier construction from one token and one lexer state, map_label reads start and end, no `+= 0` counter update. Tiling and line/column values are not decided.",
@@ -47,10 +47,10 @@ CLAIMED = {
    text="Every iteration over a std HashMap/HashSet in product code is found through resolved callees and classified: flowing into an ordered container is a finding, order-free consumers are a frozen table with reasons, anything else is unclassified and reported. FileId equality/hash must be the derived structural ones. Pipeline ordering obligations (concatenate before transforms, toposort first, table-filling walk dominates resolving fold, no positional indexing of Library.elements) checked by dominance on MIR. Permutation/partition invariance of verdicts themselves is not decided.",
    design="3 C06", technique="static analysis: resolved-callee site inventory, forward data-flow slice to collectors, CFG dominance"),
  "C08": dict(
-   text="Lexer attribute table taken from the compiler's expanded AST: every lettered #[token]/#[regex] must carry ignore(case); no byte-wise string equality on Token.text inside grammar functions; Id equality/hash read only lower_case, Id built only by Id::from (to_lowercase), Id.original read only by the listed readers; every name table in parser/analyzer keyed by Id/Type; phf sets queried lower-cased; tokenize/parse pipeline links. The trivia clause (whitespace between any two tokens) is decided by the grammar reader rule R-C08-trivia when present. Equality of parsed libraries under respelling is not decided.",
+   text="Lexer attribute table taken from the compiler's expanded AST: every lettered #[token]/#[regex] must carry ignore(case); no byte-wise string equality on Token.text inside grammar functions; Id equality/hash read only lower_case, Id built only by Id::from (to_lowercase), Id.original read only by the listed readers; every name table in parser/analyzer keyed by Id/Type; phf sets queried lower-cased; tokenize/parse pipeline links. The trivia clause (whitespace between any two tokens) is decided by the grammar reader rule R-C08-trivia when present. Equality of parsed libraries under respelling is not decided. R-C08-trivia is built: nullable/leads/trails fixpoint over the PEG, every adjacent pair of input-consuming elements in the 240 rules reachable from `library`, with a frozen exemption table for the rules that spell one lexical token.",
    design="3 C08", technique="static analysis: attribute-table lint over rustc AST, taint of Token.text into string equality on MIR, field who-reads, type-instantiation scan"),
  "C04": dict(
-   text="Exhaustive static inventory of every panic-capable construct (unwrap/expect/panic!/todo!/index/overflow/div-by-zero asserts, documented-to-panic std/time APIs) reachable in the workspace call graph from tokenize/parse/analyze/render/CLI entry points; each site is discharged by a range/guard argument re-derived from the MIR on every run, justified by a listed invariant, or reported. Plus who-writes bound for FixedPoint.femptos, indent/outdent typestate over the renderer CFGs. Decides the 'never panics' clause for all inputs as far as the listed invariants hold; termination/time/stack are not decided.",
+   text="Exhaustive static inventory of every panic-capable construct (unwrap/expect/panic!/todo!/index/overflow/div-by-zero asserts, documented-to-panic std/time APIs) reachable in the workspace call graph from tokenize/parse/analyze/render/CLI entry points; each site is discharged by a range/guard argument re-derived from the MIR on every run, justified by a listed invariant, or reported. Plus who-writes bound for FixedPoint.femptos, indent/outdent typestate over the renderer CFGs. Decides the 'never panics' clause for all inputs as far as the listed invariants hold; termination/time/stack are not decided. Thorough tier cross-references the inventory against an independent clippy restriction-lint run (recall check).",
    design="3 C04", technique="static analysis: MIR panic-site inventory over the resolved call graph, guard dominance and range propagation, typestate dataflow"),
 }
 NA_REASON = "check not built yet (round 1 in progress); see DESIGN.md section 3 for the planned static rules"
